@@ -450,6 +450,33 @@ func c06Inputs(c *Ctx, i int, r *gen.Rng) {
 				}
 				c.Count("input_overwrites", 1)
 			}
+			if dk == 0 {
+				// (a') values that are references by design (NoCopyRawMessage) and the source kept by an error:
+				// with Unmarshal([]byte) they must refer to sonic's own copy of the input
+				data := []byte(doc)
+				var nc struct {
+					R sonic.NoCopyRawMessage `json:"r"`
+					A sonic.NoCopyRawMessage `json:"a"`
+				}
+				if err := api.Unmarshal(data, &nc); err == nil {
+					before := string(nc.R) + "|" + string(nc.A)
+					scribble(data)
+					if after := string(nc.R) + "|" + string(nc.A); after != before {
+						c.Violate(i, "Unmarshal([]byte)/"+cf.name, "a NoCopyRawMessage decoded from a []byte input refers to the caller's buffer", map[string]interface{}{"doc": q(doc), "after": q(after), "before": q(before)})
+					}
+					c.Count("input_overwrites", 1)
+				}
+				data = []byte(doc[:len(doc)*2/3])
+				var v interface{}
+				if err := api.Unmarshal(data, &v); err != nil {
+					before := err.Error()
+					scribble(data)
+					if after := err.Error(); after != before {
+						c.Violate(i, "Unmarshal([]byte)/"+cf.name, "the error value changed when the caller overwrote its input buffer", map[string]interface{}{"doc": q(string(doc[:len(doc)*2/3])), "after": q(after), "before": q(before)})
+					}
+					c.Count("input_overwrites", 1)
+				}
+			}
 			// (b) UnmarshalFromString with CopyString: the string may be backed by memory the caller reuses
 			if cf.cfg.CopyString {
 				data := []byte(doc)
